@@ -26,6 +26,8 @@ StackEv ==
           <<(i = 0 /\ ~sc.hijack) => Ev.bodyEq, "C20.BodyRelayed">>,
           <<(i = 0 /\ ~sc.hijack) => Ev.extraHdrsOK, "C20.OnlyDocumentedAdditions">>,
           <<(i = 0 /\ sc.flush /\ ~sc.hijack /\ Ev.nchunks > 0 /\ ~HasBuffer(st)) => Ev.flushOK, "C20.FlushAvailable">>,
+          \* ... and a flush the handler makes goes all the way down (also one made before any status or body byte)
+          <<(i = 0 /\ ~sc.hijack /\ ~HasBuffer(st)) => Ev.flushReached, "C20.FlushAvailable">>,
           <<(i = 0 /\ sc.hijack) => Ev.hijackOK, "C20.HijackAvailable">> >>)
      /\ drift' = IF m.invoked = Ev.invoked /\ (sc.hijack \/ m.status = Ev.status) THEN drift ELSE Report(drift, scn, l, "stack")
   /\ UNCHANGED scn /\ nev' = nev + 1
